@@ -746,3 +746,97 @@ Proof.
   destruct (prun_rrun _ _ _ _ H) as [ls Rl].
   eapply run_runs_stopped; [exact (g_rx _ _ G) | rewrite L; exact Hp | exact St | exact Rl].
 Qed.
+
+(** * Stop runs exactly once on every rerunner that has ended, never on one that has not *)
+
+Lemma plabel_server_step w sv rx pl sv' rx' : pstep w (sv, rx) pl = Some (sv', rx') ->
+  match plabel_server w (sv, rx) pl with
+  | Some l => step (w_cfg w) sv l = Some sv'
+  | None => sv' = sv
+  end.
+Proof.
+  unfold pstep, plabel_server. cbn [snd]. destruct pl as [l|l o].
+  - destruct (is_run_label l); [discriminate|].
+    destruct (step (w_cfg w) sv l) as [sv1|] eqn:E; [|discriminate].
+    destruct (stop_all rx (newly_stopped sv sv1)); [|discriminate].
+    destruct (_ && _); [|discriminate]. intros H; inversion H; subst. reflexivity.
+  - destruct (is_stop_label l); [discriminate|].
+    destruct (RR.step rx l) as [rx1|]; [|discriminate].
+    destruct (forallb _ _); [|discriminate].
+    destruct (events (pool w) rx rx1) as [|[r e] [|? ?]]; [destruct o; [discriminate|] | | destruct e; discriminate].
+    + intros H; inversion H; subst. reflexivity.
+    + destruct e; try discriminate.
+      * destruct o; [discriminate|].
+        destruct (step (w_cfg w) sv (LRun r (OOk (w_render w r out)))) as [sv1|] eqn:E; [|discriminate].
+        destruct (sub_live_in sv1 r); [|discriminate]. intros H; inversion H; subst. reflexivity.
+      * destruct o as [oc|]; [|discriminate].
+        destruct (step (w_cfg w) sv (LRun r oc)) as [sv1|] eqn:E; [|discriminate].
+        destruct (failed_in sv1 r); [|discriminate]. intros H; inversion H; subst. reflexivity.
+Qed.
+
+Lemma run_iface_not_stop ru o : is_xstop (Some (run_iface ru o)) = false.
+Proof. unfold run_iface. destruct (r_kind ru), o; try reflexivity. destruct (r_initial ru); reflexivity. Qed.
+
+Lemma run_does_not_stop cfg s r o s' rid : step cfg s (LRun r o) = Some s' -> alive_in s rid && stopped_in s' rid = false.
+Proof.
+  cbn [step]. destruct (st_runners s r) as [ru|] eqn:Er; [|discriminate].
+  destruct (is_live ru) eqn:Li; [|discriminate]. intros H; inversion H; subst; clear H.
+  unfold alive_in, stopped_in. destruct (Nat.eq_dec rid r) as [->|Hne].
+  - rewrite (do_run_runner _ _ _ _ Er), Er.
+    assert (St : r_stat ru = Live) by (unfold is_live in Li; destruct (r_stat ru); congruence).
+    unfold run_runner, is_stopped. destruct (r_kind ru); [destruct o; cbn; try (destruct (r_initial ru); cbn); rewrite ?St; try reflexivity; apply andb_false_r
+                                                          | cbn; apply andb_false_r].
+  - rewrite (do_run_other _ _ _ _ _ Hne). destruct (st_runners s rid) as [r0|]; [destruct (is_stopped r0)|]; reflexivity.
+Qed.
+
+Lemma pstep_xstop w p pl p' rid : preachable w p -> pstep w p pl = Some p' -> rid < pool w ->
+  is_xstop (rx_ev (RR.getr (snd p) rid) (RR.getr (snd p') rid)) = alive_in (fst p) rid && stopped_in (fst p') rid.
+Proof.
+  intros R H Hr. rewrite (interface_agrees_l _ _ _ _ _ R H Hr).
+  destruct p as [sv rx], p' as [sv' rx']. pose proof (plabel_server_step _ _ _ _ _ _ H) as Hs. cbn [fst snd] in *.
+  destruct (plabel_server w (sv, rx) pl) as [l|].
+  - destruct l; cbn [sv_ev];
+      try (destruct (alive_in sv rid && stopped_in sv' rid) eqn:A; [|reflexivity];
+           apply andb_true_iff in A; destruct A as [A _]; unfold alive_in in A;
+           destruct (st_runners sv rid); [reflexivity | discriminate]).
+    rewrite (run_does_not_stop _ _ _ _ _ rid Hs).
+    destruct (Nat.eqb rid0 rid); [|reflexivity]. destruct (st_runners sv rid); [apply run_iface_not_stop | reflexivity].
+  - subst sv'. unfold alive_in, stopped_in. destruct (st_runners sv rid) as [r0|]; [destruct (is_stopped r0)|]; reflexivity.
+Qed.
+
+Lemma stop_count_exact w h rid : rid < pool w -> forall p p', preachable w p -> prun w p h = Some p' ->
+  (stopped_in (fst p) rid = true -> stopped_in (fst p') rid = true /\ stop_count w p h rid = 0) /\
+  (stopped_in (fst p) rid = false -> stop_count w p h rid = if stopped_in (fst p') rid then 1 else 0).
+Proof.
+  intros Hr. induction h as [|l t IH]; intros p p' R Hrun; cbn [prun stop_count] in *.
+  - inversion Hrun; subst. split; [auto|]. intros ->. reflexivity.
+  - destruct (pstep w p l) as [p1|] eqn:E; [|discriminate].
+    assert (R1 : preachable w p1) by (eapply (preachable_run w p [l]); [exact R | cbn; rewrite E; reflexivity]).
+    destruct (IH p1 p' R1 Hrun) as [IH1 IH2].
+    rewrite (pstep_xstop _ _ _ _ _ R E Hr).
+    pose proof (preachable_Good _ _ R) as G.
+    assert (Mono : stopped_in (fst p) rid = true -> stopped_in (fst p1) rid = true).
+    { intros S. eapply (prun_stopped_mono w [l]); [exact (proj1 (g_pi _ _ G)) | exact S | cbn; rewrite E; reflexivity]. }
+    split.
+    + intros Hst. rewrite (stopped_alive_excl _ _ Hst). cbn [andb].
+      destruct (IH1 (Mono Hst)) as [A B]. rewrite B. auto.
+    + intros Hst. destruct (stopped_in (fst p1) rid) eqn:S1.
+      * destruct (IH1 eq_refl) as [A B]. rewrite A, B.
+        assert (Al : alive_in (fst p) rid = true).
+        { destruct p as [sv rx], p1 as [sv1 rx1]. cbn [fst] in *.
+          destruct (pstep_server _ _ _ _ _ _ E) as [->|[sl Es]]; [congruence|].
+          eapply change_newly_stopped; [eapply step_change; [exact (proj1 (proj1 (g_pi _ _ G))) | exact Es] | exact Hst | exact S1]. }
+        rewrite Al. reflexivity.
+      * rewrite andb_false_r. cbn [plus]. apply IH2. reflexivity.
+Qed.
+
+(** Along every history of the product, the number of steps at which Stop's critical section runs on rerunner
+    [rid] - as the reactive side shows it - is 1 if the connection has ended the subscription and 0 otherwise:
+    never twice, never on a subscription that is still live. *)
+Theorem stop_runs_exactly_once_l : forall w h p rid,
+  prun w (pinit w) h = Some p -> rid < pool w ->
+  stop_count w (pinit w) h rid = if stopped_in (fst p) rid then 1 else 0.
+Proof.
+  intros w h p rid H Hr.
+  destruct (stop_count_exact w h rid Hr (pinit w) p (ex_intro _ [] eq_refl) H) as [_ B]. apply B. reflexivity.
+Qed.
